@@ -85,7 +85,8 @@ def config(draw):
     if mode_c == "prefix" and na > 3:
         C = list(A[: draw(st.integers(3, na - 1))])
     elif mode_c == "extension":
-        C = list(A) + [float(A[-1] + (k + 1) * draw(st.floats(1e-3, 2.0))) for k in range(draw(st.integers(1, 5)))]
+        # (increments accumulate: a time grid never steps backwards - such a grid is not an admissible input)
+        C = list(A) + [float(x) for x in A[-1] + np.cumsum([draw(st.floats(1e-3, 2.0)) for _ in range(draw(st.integers(1, 5)))])]
     elif mode_c == "subsample" and na >= 6:
         C = list(A[::2])
         if len(C) == na:
